@@ -168,6 +168,15 @@ func (e *FEnc) instr(st *State, b *ssa.BasicBlock, idx int, in ssa.Instruction) 
 		}
 	case *ssa.Go:
 		e.note("go statement: goroutine body not modelled")
+		{
+			var gargs []*Val
+			for _, a := range x.Call.Args {
+				gargs = append(gargs, e.valOf(a))
+			}
+			gname := calleeName(&x.Call)
+			e.atCall(st, in, gname, gargs, nil)
+			st.called[gname] = "true"
+		}
 		for _, a := range x.Call.Args {
 			e.leakVal(e.valOf(a))
 		}
